@@ -44,6 +44,37 @@ theorem seqSpans_hold {α : Type} (kind : String) (enc : α → B) (xs : List α
     · exact ⟨rfl, hat.left⟩
     · exact ih hat.right s hs
 
+/-- the first span starts at `p`; each next one starts where the previous one ended -/
+theorem seqSpans_consecutive {α : Type} (kind : String) (enc : α → B) (xs : List α) (p : Nat) :
+    (∀ a, (seqSpans kind enc p xs)[0]? = some a → a.region.offset = p) ∧
+    ∀ (i : Nat) (a b : Span), (seqSpans kind enc p xs)[i]? = some a → (seqSpans kind enc p xs)[i + 1]? = some b →
+      b.region.offset = a.region.offset + a.region.length := by
+  induction xs generalizing p with
+  | nil => exact ⟨by intro a h; simp [seqSpans] at h, by intro i a b h; simp [seqSpans] at h⟩
+  | cons x xs ih =>
+    obtain ⟨i1, i2⟩ := ih (p + (enc x).length)
+    refine ⟨?_, ?_⟩
+    · intro a h
+      simp only [seqSpans, List.getElem?_cons_zero, Option.some.injEq] at h
+      rw [← h]
+    · intro i a b h1 h2
+      cases i with
+      | zero =>
+        simp only [seqSpans, List.getElem?_cons_zero, Option.some.injEq, List.getElem?_cons_succ] at h1 h2
+        rw [i1 b h2, ← h1]
+      | succ i =>
+        simp only [seqSpans, List.getElem?_cons_succ] at h1 h2
+        exact i2 i a b h1 h2
+
+/-- the region delimits exactly these bytes of the file (`Span.Holds` without the auxiliary `At`) -/
+def Delimits (bs : B) (r : Region) (sub : B) : Prop :=
+  r.offset + r.length ≤ bs.length ∧ r.length = sub.length ∧ (bs.drop r.offset).take r.length = sub
+
+theorem delimits_of_holds {bs : B} {s : Span} (h : s.Holds bs) : Delimits bs s.region s.bytes := by
+  obtain ⟨h1, h2⟩ := h
+  refine ⟨by rw [h1]; exact h2.bound, h1, ?_⟩
+  rw [h1]; exact h2.drop_take
+
 /-! ### where the primitives end, whatever the data -/
 
 theorem readN_pos {n : Nat} {d : B} {p : Nat} {bs : B} {q : Nat} (h : readN n d p = .ok (bs, q)) : q = p + n := by
